@@ -32,14 +32,14 @@ theorem convService_uses (c : Ctx) (s : Service) :
   | some name =>
     intro u hu
     simp only [Eff.uses_append, Eff.imports_append, List.mem_append] at hu ⊢
-    rcases hu with (hu | hu) | hu
-    · exact Or.inl (Or.inl (Or.inl (hwalk u hu)))
+    rcases hu with ((hu | hu) | hu) | hu
+    · exact Or.inl (Or.inl (Or.inl (Or.inl (hwalk u hu))))
     · -- an option of some rpc
       rcases uses_foldl_mem (fun b : Eff × Option MethodSkel => b.1) _ _ u hu with h0 | ⟨b, hb, hub⟩
       · simp at h0
       · obtain ⟨node, hnode, rfl⟩ := List.mem_map.mp hb
         rcases convMethod_usesOk node u hub with h1 | h1
-        · exact Or.inl (Or.inl (Or.inr (imports_foldl_mem (fun b : Eff × Option MethodSkel => b.1) _ _ _ hb u h1)))
+        · exact Or.inl (Or.inl (Or.inl (Or.inr (imports_foldl_mem (fun b : Eff × Option MethodSkel => b.1) _ _ _ hb u h1))))
         · -- the method annotation: the request object of that method imports the file
           subst h1
           obtain ⟨w, hw, hwn⟩ := List.mem_filterMap.mp hnode
@@ -51,7 +51,8 @@ theorem convService_uses (c : Ctx) (s : Service) :
             | some req =>
               simp only [Eff.imports_append, List.mem_append]
               exact Or.inl (convVirtual_imports_ext c _ _ _ _)
-          exact Or.inl (Or.inl (Or.inl (imports_foldl_mem (fun w : MethodWalk => w.eff) _ _ _ hw _ himp)))
+          exact Or.inl (Or.inl (Or.inl (Or.inl (imports_foldl_mem (fun w : MethodWalk => w.eff) _ _ _ hw _ himp))))
+    · cases hu
     · by_cases hs : s.sopt = .none
       · simp [hs, Compile.when] at hu
       · simp only [hs, ne_eq, not_false_eq_true, decide_true, Compile.when, if_true, Eff.use,
@@ -120,7 +121,7 @@ theorem queryService_imports_ext (c : Ctx) (pkg : Str) (e : Entity) :
   unfold convService
   simp only [Entity.queryService] at this ⊢
   simp only [Eff.imports_append, List.mem_append]
-  exact Or.inl (Or.inl this)
+  exact Or.inl (Or.inl (Or.inl this))
 
 /-- annotated services only come from entities, next to the entity's query service -/
 theorem annotated_has_query (pkg : Str) (elems : List Elem)
